@@ -776,7 +776,7 @@ func (m *Machine) pos(in ssa.Instruction) string {
 		name = in.Parent().Name()
 	}
 	f := p.Filename
-	f = strings.TrimPrefix(f, "/repo/")
+	f = strings.TrimPrefix(f, repoRoot+"/")
 	return fmt.Sprintf("%s:%d (%s)", f, p.Line, name)
 }
 
@@ -1483,6 +1483,12 @@ func (m *Machine) typeAssert(fr *Frame, in *ssa.TypeAssert) {
 
 func (m *Machine) builtin(g *G, fr *Frame, in ssa.Instruction, b *ssa.Builtin, args []Value, argExprs []ssa.Value) Value {
 	switch b.Name() {
+	case "ssa:wrapnilchk":
+		// method-value wrapper of a pointer receiver: panics on a nil receiver, else the receiver
+		if p, isPtr := args[0].(Ptr); isPtr && p == nil {
+			m.throw("value method " + m.concStr(args[1], "wrapnilchk") + "." + m.concStr(args[2], "wrapnilchk") + " called using nil pointer")
+		}
+		return args[0]
 	case "len":
 		switch x := args[0].(type) {
 		case *SliceV:
